@@ -15,7 +15,7 @@ from treelib import T, O, XL
 
 PROP = "C09"
 HEADER = '''Require Import WS Tree. From Coq Require Import List ZArith Bool Arith. Import ListNotations.
-Definition insertion (o : op) := match o with OWrapOff _ _ _ _ | OWrapRe _ _ _ | OInsert _ _ => true | _ => false end.
+Definition insertion (o : op) := match o with OWrapOff _ _ _ _ | OWrapRe _ _ _ | OInsert _ _ | OInsertRange _ _ _ _ => true | _ => false end.
 Definition stripping (o : op) := match o with OStripTags _ _ | OStripElems => true | _ => false end.
 Definition top_eq (x y : node) := match x, y with Node k a _ _ _ tl, Node k' a' _ _ _ tl' =>
   kind_eqb k k' && Nat.eqb a a' && str_eqb (oget tl) (oget tl') end.
@@ -91,9 +91,9 @@ def fresh_office_name(x):
 def place_coq(st, pre):
     """the `place` argument of Tree.insert_ for a step descriptor"""
     if st.get('before') is not None:
-        return 'WRe false (%d) %s' % (st.get('pos', 0), tl.coq_spans(tl.spans_oracle(st['before'], pre)))
+        return 'WRe false (%d) %s' % (st.get('pos', 0), tl.coq_spans(tl.spans_oracle(st['before'], pre, main=True)))
     if st.get('after') is not None:
-        return 'WRe true (%d) %s' % (st.get('pos', 0), tl.coq_spans(tl.spans_oracle(st['after'], pre)))
+        return 'WRe true (%d) %s' % (st.get('pos', 0), tl.coq_spans(tl.spans_oracle(st['after'], pre, main=True)))
     return 'WPos (%d)' % st.get('pos', 0)
 
 
@@ -200,8 +200,19 @@ class Run:
             m2 = mark_elem(c, 'annotation-end', name, ns=O)
             pub = lambda kw: q.insert_annotation(body=st['body'], creator='cr', date=DATE, **kw)
         if 'rx' in st:
-            s1, s2 = dict(before=st['rx'], pos=st.get('pos', 0)), dict(after=st['rx'], pos=st.get('pos', 0))
+            # content=regex: one search, one model step (Tree.insert_range); then the range predicate on the result
+            ev1, ev2 = tl.coq_evs(tl.elem_events(m1), c), tl.coq_evs(tl.elem_events(m2), c)
             kw = dict(content=st['rx'], position=st.get('pos', 0))
+            q = p       # the public call runs on the live paragraph
+            raised = self.single(p, st, lambda pre: 'OInsertRange %s %s (%d) %s' % (ev1, ev2, st.get('pos', 0),
+                                 tl.coq_spans(tl.spans_oracle(st['rx'], pre, main=True))), lambda: pub(kw), hid, si)
+            if not raised and st.get('pos', 0) >= 0:
+                ms = [t[x:y] for t, sp in zip(tl.texts_main(pre0), tl.spans_oracle(st['rx'], pre0, main=True)) for (x, y) in sp]
+                if st.get('pos', 0) < len(ms):
+                    post = self.abs(p)
+                    op = 'OInsert [Txt %s] (WRe true (%d) [[(%d, 0)]])' % (c.cs(ms[st['pos']]), m1[1], m2[1])
+                    self.emit(post, op, False, post, dict(hid=hid, step=si, st=dict(st, part='range'), err=None))
+            return raised
         else:
             s1, s2 = dict(pos=st['a']), dict(pos=st['b'])
             kw = dict(position=(st['a'], st['b']))
@@ -218,12 +229,6 @@ class Run:
             self.emit(pre0, 'OSame', False, postq, dict(hid=hid, step=si, st=dict(st, part='composite-raised'), err=err))
         else:
             self.emit(self.abs(p), 'OSame', r1 or r2, postq, dict(hid=hid, step=si, st=dict(st, part='composite'), err=err))
-            if 'rx' in st and not (r1 or r2) and st.get('pos', 0) >= 0:
-                # the designated match: the pos-th match over the text nodes of the state before the call
-                ms = [t[x:y] for t, sp in zip(tl.texts(pre0), tl.spans_oracle(st['rx'], pre0)) for (x, y) in sp]
-                if st.get('pos', 0) < len(ms):
-                    op = 'OInsert [Txt %s] (WRe true (%d) [[(%d, 0)]])' % (c.cs(ms[st['pos']]), m1[1], m2[1])
-                    self.emit(postq, op, False, postq, dict(hid=hid, step=si, st=dict(st, part='range'), err=None))
         return r1 or r2
 
     # ------------------------------------------------------------ removals (each on a clone of the state reached)
@@ -370,10 +375,6 @@ def squeeze(s):
 def classify(code, meta):
     """returns a known-finding key or None"""
     st = meta['st']
-    if code == 7 and st['k'] == 'annot2' and any(re.search(st['rx'], t) for t in (st['body'], 'cr', '2020-01-02T03:04:05')):
-        return "insert_annotation/content-regex-matches-own-annotation"
-    if code == 7 and st['k'] in ('bm2', 'ref2', 'annot2') and re.search(r'\^|\$|\\b|\\B|\(\?[=!<]', st.get('rx', '')):
-        return "content-regex/context-dependent-pattern-searched-twice"
     if code == 4 and squeeze(tl.raw(meta['pre'])) == squeeze(tl.raw(meta['post'])):
         return "strip_tags/double-space-created-by-concatenation"
     return None
